@@ -30,6 +30,16 @@ def known_key(run, node, k):
         return "file-scan-declares-equivalences-of-a-pruning-only-predicate"
     if f in ("ordering", "outord"):
         o = contract.origin(run, node, "C28", ("ordering", "outord"))
+        if o["name"] in ("BoundedWindowAggExec", "WindowAggExec") and f == "ordering":
+            kids = contract.children(run, o)
+            last = o["ords"][idx - 1][-1] if o["id"] == node["id"] else None
+            bad = [b for b in run["rust_bad"]["C28"] if b["n"] == o["id"] and b["f"] == "ordering"]
+            if kids and bad and all(o["ords"][b["k"] - 1][-1]["i"] > kids[0]["w"] and not o["ords"][b["k"] - 1][-1]["nf"]
+                                    and any(r[o["ords"][b["k"] - 1][-1]["i"] - 1]["k"] == "n" for s in o["streams"] for bt in s["batches"] for r in bt["rows"])
+                                    for b in bad):
+                return "window-running-aggregate-ordering-ignores-leading-nulls"
+        if o["name"] in ("HashJoinExec", "SortMergeJoinExec", "NestedLoopJoinExec", "PiecewiseMergeJoinExec", "SymmetricHashJoinExec") and joined_suffix(run, o):
+            return "join-appends-other-side-ordering-after-probe-ordering"
         kids = contract.children(run, o)
         if (o["name"] == "SortPreservingMergeExec" and o["own_ord"] and o["own_sorted"] and len(kids) == 1 and kids[0]["np"] > 1):
             # the merged output IS sorted by the merge ordering; what fails is an ordering inherited from the input
@@ -37,6 +47,39 @@ def known_key(run, node, k):
             if inherited:
                 return "spm-keeps-per-partition-input-orderings"
     return None
+
+
+def sorted_by(rows, keys):
+    return all(not sqlcases.row_before(rows[i + 1], rows[i], keys) for i in range(len(rows) - 1))
+
+
+def joined_suffix(run, o):
+    """Every violated ordering of join node `o` is <ordering of the order-preserved (probe / streamed) input> followed by
+    keys of the other input, and the order-preserved part alone DOES hold on every partition."""
+    kids = contract.children(run, o)
+    if len(kids) != 2:
+        return False
+    lw = kids[0]["w"]
+    bad = [b for b in run["rust_bad"]["C28"] if b["n"] == o["id"] and b["f"] == "ordering"]
+    if not bad:
+        return False
+    for b in bad:
+        ordering = o["ords"][b["k"] - 1]
+        side = lambda key: 0 if key["i"] <= lw else 1
+        first = side(ordering[0])
+        cut = next((j for j, key in enumerate(ordering) if side(key) != first), None)
+        if cut is None:
+            return False
+        prefix = ordering[:cut]
+        # the prefix is an ordering the order-preserved child declares (shifted by the left width for the right child)
+        shifted = [dict(key, i=key["i"] - (lw if first == 1 else 0)) for key in prefix]
+        if not any(co[:len(shifted)] == shifted for co in kids[first]["ords"]):
+            return False
+        for s in o["streams"]:
+            rows = [r for bt in s["batches"] for r in bt["rows"]]
+            if not sorted_by(rows, prefix):
+                return False
+    return True
 
 
 def differential(ctx, runs, meta):
@@ -75,9 +118,15 @@ def run(ctx):
         return
     cfgs = QUICK_CFG if ctx.quick else ALL_CFG
     lines, meta, tlcruns = contract.build_runs(ctx, n_tlc=50 if ctx.quick else 500, n_big=2 if ctx.quick else 8, configs=cfgs, corpus=1 if ctx.quick else 4,
-                                               gens=None if ctx.quick else [(2, 2, ctx.seed), (3, 1, ctx.seed + 1000), (4, 1, ctx.seed + 2000), (1, 3, ctx.seed + 3000)])
+                                               gens=None if ctx.quick else [(2, 2, ctx.seed), (3, 1, ctx.seed + 1000), (4, 1, ctx.seed + 2000), (1, 3, ctx.seed + 3000)],
+                                               corpus_tlc_db=not ctx.quick, corpus_cfgs=3 if ctx.quick else None)
+    contract.matrix_runs(ctx, lines, meta, thorough=not ctx.quick)
     runs, summary = contract.record(ctx, lines)
     res = contract.judge(ctx, "C28", runs, meta, known_key=known_key)
+    judged_ops = contract.require_operators([r for r in runs if r["status"] == "ok"], contract.REQUIRED_OPERATORS)
+    hazards = contract.filter_singleton_hazards([r for r in runs if r["status"] == "ok"])
+    if not hazards:
+        raise ToolError("vacuity: no FilterExec over an input with Exact singleton min/max statistics on an unmentioned column containing NULLs")
     diff, noted = differential(ctx, runs, meta)
     ok = [r for r in runs if r["status"] == "ok"]
     fc = contract.fact_counts(ok)
@@ -95,8 +144,9 @@ def run(ctx):
         "samples": [{"sql": meta[sample["id"]]["sql"], "cfg": meta[sample["id"]]["cfg"], "plan": sample["plan"],
                      "node": sn["detail"], "declared_orderings": sn["ords"], "exprs": sn["exprs"],
                      "observed": [{"p": s["p"], "rows": [r for b in s["batches"] for r in b["rows"]][:6]} for s in sn["streams"]][:3]}],
-        "configurations": cfgs, "operator_coverage": contract.coverage(ok), "facts_checked": fc,
-        "results_compared_with_reference": diff, "reference_disagreements_not_judged_here": noted[:3], "sources": dict(__import__("collections").Counter(meta[r["id"]]["src"] for r in ok)),
+        "configurations": cfgs + sorted({c for f in contract.FAMILIES.values() for c in f[1]}), "operator_coverage": contract.coverage(ok),
+        "operators_judged_output_consumed_in_full": judged_ops, "operator_types_not_reached": contract.NOT_REACHED, "facts_checked": fc,
+        "filters_over_singleton_statistics_with_nulls": hazards, "results_compared_with_reference": diff, "reference_disagreements_not_judged_here": noted[:3], "sources": dict(__import__("collections").Counter(meta[r["id"]]["src"] for r in ok)),
         "tlc_generated_cases": sum(t.distinct for t in tlcruns), **res,
     }, assumptions=[
         "observers are shown inert on every run: the un-instrumented plan (planned separately from the same optimised logical plan) gives the same result bag "
